@@ -162,6 +162,11 @@ Section Surface.
 
   Definition starts_trigger (s : sx) : bool := pt_trigger T (hdk (print s)).
 
+  (** a number literal is not multiplied with a directly following number literal (`.5.5`, `1.5.5`): the Num arm of
+      parse_number rejects it (tables with [pt_numnum = false]) *)
+  Definition numjuxt_ok (a : sx) (k : kind) : bool :=
+    match a with SNum _ => pt_numnum T || negb (kind_eqb k KNum) | _ => true end.
+
   (** what may follow [s] in a token stream: the next token, or the end of input (where every loop
       stops and only implicit_multiply still looks at the -- Eof -- token) *)
   Definition follows (s : sx) (rest : list tok) : Prop :=
@@ -193,7 +198,8 @@ Section Surface.
            end) args
     | SNeg e => pt_neg T = true /\ W (pt_neg_level T) e
     | SPos e => pt_pos T = true /\ W (pt_neg_level T) e
-    | SJuxt a r => capable a = true /\ W 0 a /\ starts_trigger r = true /\ W (pt_impl_level T) r
+    | SJuxt a r => capable a = true /\ W 0 a /\ starts_trigger r = true /\ W (pt_impl_level T) r /\
+                   numjuxt_ok a (hdk (print r)) = true
     | SBin k l r => (exists b lvl, pt_infix T k = Some (b, lvl)) /\ p < pt_prec T k /\
                     noabs (pt_prec T k) l = true /\ (opn l = true -> pt_trigger T k = false) /\
                     W p l /\ W (rlevel k) r
@@ -246,7 +252,7 @@ Section Decide.
            end) args
     | SNeg e => pt_neg T && Wb (pt_neg_level T) e
     | SPos e => pt_pos T && Wb (pt_neg_level T) e
-    | SJuxt a r => capable a && Wb 0 a && starts_trigger T r && Wb (pt_impl_level T) r
+    | SJuxt a r => capable a && Wb 0 a && starts_trigger T r && Wb (pt_impl_level T) r && numjuxt_ok T a (hdk (print T r))
     | SBin k l r => is_some (pt_infix T k) && (p <? pt_prec T k) && follow_okb l k && Wb p l && Wb (rlevel T k) r
     | SFact l => pt_bang T && negb (is_some (pt_infix T KExclamationMark)) && (p <? pt_prec T KExclamationMark) &&
                  follow_okb l KExclamationMark && Wb p l
